@@ -1,6 +1,6 @@
 (* C11 property theorems only. *)
 From Coq Require Import List NArith Bool Arith.
-From Verif Require Import C11.Model_C11 C11.Proofs_C11 C11.Proofs1_C11 C11.ModelS_C11 C11.ProofsS_C11.
+From Verif Require Import C11.Model_C11 C11.Proofs_C11 C11.Proofs1_C11 C11.ModelS_C11 C11.ProofsS_C11 C11.ModelP_C11 C11.ProofsP_C11.
 Import ListNotations.
 
 (* For every configuration, every behaviour of the operations, every number of workers and EVERY
@@ -108,3 +108,42 @@ Theorem C11_example_now :
   cp s = CDone /\ has_to_stop s = false /\ trace s = [ScStart 0; ScFinish 0 SUCCESS].
 Proof. exact race_schedule_now. Qed.
 Print Assumptions C11_example_now.
+
+(* ---- the stateful phase's producer thread (execute_state_machine_loop), ModelP_C11 ----
+   For every behaviour of Hypothesis inside `run` (any number of suites, scenarios, steps, any outcome of every step, any
+   way `run` ends), every failure limit, every initial state of the stop flags and every point at which a stop request
+   arrives: every prefix of what the thread puts is properly nested - suites one at a time, scenarios inside their suite,
+   matching identifiers, no closing event without its opening one ... *)
+Theorem C11_stateful_producer_nested : forall c stop0 limit0 counter0 behs ls,
+  nested (pscript (prun c ls (pinit stop0 limit0 counter0 behs))) = true.
+Proof. exact producer_nested. Qed.
+Print Assumptions C11_stateful_producer_nested.
+
+(* ... and when the thread has ended every announced suite and scenario is closed, interrupted or not. *)
+Theorem C11_stateful_producer_closed : forall c stop0 limit0 counter0 behs ls,
+  let s := prun c ls (pinit stop0 limit0 counter0 behs) in
+  p_pc s = PDone -> all_closed_p (pscript s) = true.
+Proof. exact producer_closed. Qed.
+Print Assumptions C11_stateful_producer_closed.
+
+(* Composition with the consumer (ModelS_C11): when the consumer is done, the stream holds exactly what the thread
+   produced, hence is nested and closed. *)
+Theorem C11_stateful_stream_nested : forall c stop0 limit0 counter0 behs ls sched,
+  let p := prun c ls (pinit stop0 limit0 counter0 behs) in
+  let s := srun pev true sched (sinit pev (pscript p)) in
+  p_pc p = PDone -> s_cp s = SDone ->
+  nested (strace pev s) = true /\ all_closed_p (strace pev s) = true.
+Proof.
+  intros c stop0 limit0 counter0 behs ls sched p s Hp Hs.
+  unfold s. rewrite (stateful_nothing_lost pev (pscript p) sched Hs).
+  split; [apply producer_nested|apply producer_closed; exact Hp].
+Qed.
+Print Assumptions C11_stateful_stream_nested.
+
+(* non-vacuity: a failing suite followed by a stop request right before the second suite's interruption test *)
+Example C11_stateful_producer_example :
+  let s := prun {| p_maxf := None; p_maxex := 5 |} (repeat LP 9 ++ [LStop] ++ repeat LP 6)
+                (pinit false false 0 [([[StOk; StFail 0]], RFailureGroup); ([[StOk]], ROk)]) in
+  p_pc s = PDone /\
+  pscript s = [SuS 0; ScS 0 0; ScF 0 0 FAILURE; SuF 0 FAILURE; SuS 1; PIntr; SuF 1 INTERRUPTED].
+Proof. vm_compute. split; reflexivity. Qed.
